@@ -314,3 +314,141 @@ func ruleN15g(c *Ctx) {
 	}
 	c.check(n >= 1, "N15g", "uses of getRegisterType found", "", fmt.Sprintf("%d", n))
 }
+
+// ---------------------------------------------------------------------------------------
+// O6: no operator is dropped by the partial evaluators
+// ---------------------------------------------------------------------------------------
+
+func ruleO6(c *Ctx) {
+	c.doc("O6", "in AddExp.Eval and MultExp.Eval every round of a loop over the operator list looks at the operator it has fetched on every path to the next round (compares it to choose the arithmetic, or stores it into the rebuilt operator list): a path that keeps the term without looking at its operator has dropped a sign — `10 - A` rebuilt as `A + 10`")
+	total := 0
+	for _, fn := range []string{"(*AddExp).Eval", "(*MultExp).Eval"} {
+		f := c.L.SSAFunc("internal/ast", fn)
+		if f == nil {
+			c.anchorMissing("O6", "internal/ast."+fn)
+			continue
+		}
+		n := 0
+		for _, b := range f.Blocks {
+			for idx, in := range b.Instrs {
+				ld, ok := in.(*ssa.UnOp)
+				if !ok || ld.Op != token.MUL {
+					continue
+				}
+				ia, ok := ld.X.(*ssa.IndexAddr)
+				if !ok || !isFieldLoad(ia.X, "Operators") {
+					continue
+				}
+				// the loop: the innermost header that dominates this block and is reached back from it
+				header := loopHeaderOf(b)
+				if header == nil {
+					continue
+				}
+				n++
+				total++
+				key := fmt.Sprintf("%s|operator fetched in loop#%d", fn, n)
+				uses := map[*ssa.BasicBlock]bool{}
+				usedHere := false
+				if ld.Referrers() != nil {
+					for _, r := range *ld.Referrers() {
+						if _, isDbg := r.(*ssa.DebugRef); isDbg {
+							continue
+						}
+						if r.Block() == b {
+							for j := idx + 1; j < len(b.Instrs); j++ {
+								if b.Instrs[j] == r {
+									usedHere = true
+								}
+							}
+							if _, isPhi := r.(*ssa.Phi); isPhi {
+								continue
+							}
+						}
+						uses[r.Block()] = true
+					}
+				}
+				if usedHere {
+					c.ok("O6", key, c.L.Pos(instrPos(in)), "the operator is looked at right where it is fetched")
+					continue
+				}
+				// can the next round be reached from here without passing a block that uses the operator?
+				seen := map[*ssa.BasicBlock]bool{}
+				var path []*ssa.BasicBlock
+				var found []*ssa.BasicBlock
+				var dfs func(x *ssa.BasicBlock) bool
+				dfs = func(x *ssa.BasicBlock) bool {
+					if x == header {
+						found = append([]*ssa.BasicBlock{}, path...)
+						return true
+					}
+					if seen[x] || (uses[x] && x != b) || !header.Dominates(x) {
+						return false
+					}
+					seen[x] = true
+					path = append(path, x)
+					for _, s := range x.Succs {
+						if dfs(s) {
+							return true
+						}
+					}
+					path = path[:len(path)-1]
+					return false
+				}
+				if dfs(b) {
+					where := ""
+					if len(found) > 0 {
+						last := found[len(found)-1]
+						for _, li := range last.Instrs {
+							if p := instrPos(li); p.IsValid() {
+								where = c.L.Pos(p)
+							}
+						}
+					}
+					c.fail("O6", key, c.L.Pos(instrPos(in)), fmt.Sprintf("%s can go on to the next term without having looked at the operator it fetched (path ends near %s): the term is kept and its sign is lost", fn, where))
+				} else {
+					c.ok("O6", key, c.L.Pos(instrPos(in)), "every path to the next round compares or stores the operator")
+				}
+			}
+		}
+		c.check(n >= 1, "O6", fn+"|operator loops found", c.L.Pos(f.Pos()), fmt.Sprintf("%d", n))
+	}
+	c.analysed["O6_operator_fetches"] = total
+}
+
+// loopHeaderOf: the closest block that dominates b and has a predecessor it dominates which is
+// reachable from b (a natural-loop header around b); nil when b is in no loop.
+func loopHeaderOf(b *ssa.BasicBlock) *ssa.BasicBlock {
+	for h := b; h != nil; h = h.Idom() {
+		for _, p := range h.Preds {
+			if h.Dominates(p) && reaches(b, p, h) {
+				return h
+			}
+		}
+	}
+	return nil
+}
+
+// reaches: to is reachable from from without passing through stop (from == to counts).
+func reaches(from, to, stop *ssa.BasicBlock) bool {
+	seen := map[*ssa.BasicBlock]bool{}
+	var dfs func(x *ssa.BasicBlock) bool
+	dfs = func(x *ssa.BasicBlock) bool {
+		if x == to {
+			return true
+		}
+		if seen[x] {
+			return false
+		}
+		seen[x] = true
+		for _, s := range x.Succs {
+			if s == stop {
+				continue
+			}
+			if dfs(s) {
+				return true
+			}
+		}
+		return false
+	}
+	return dfs(from)
+}
